@@ -29,7 +29,7 @@ fn finite_f64() -> impl Strategy<Value = u64> {
     prop_oneof![
         3 => (0f64..1e7).prop_map(|f| f.to_bits()),
         1 => (-1e12f64..1e12).prop_map(|f| f.to_bits()),
-        1 => any::<u64>().prop_map(|b| if f64::from_bits(b).is_finite() { b } else { b & 0x3FFF_FFFF_FFFF_FFFF }),
+        1 => crate::util::num::<u64>().prop_map(|b| if f64::from_bits(b).is_finite() { b } else { b & 0x3FFF_FFFF_FFFF_FFFF }),
         1 => Just(0f64.to_bits()),
     ]
 }
@@ -44,7 +44,7 @@ pub fn eco_state() -> impl Strategy<Value = EcoState> {
         // 0-100 online players, names up to 64 characters
         prop_oneof![6 => prop::collection::vec(text(ANY, 16), 0..12), 1 => prop::collection::vec(prop_oneof![text(ANY, 64).boxed(), "\\PC{30,64}".boxed()], 40..101)],
         prop_oneof![6 => prop::collection::vec((text(ANY, 12), text(ANY, 20)), 0..6), 1 => prop::collection::vec((text(ANY, 24), text(ANY, 200)), 6..40)],
-        any::<u64>(),
+        crate::util::num::<u64>(),
         any::<bool>(),
     )
         .prop_map(|(bools, u32s, f64s, strings, names, achievements, order, extra_member)| {
